@@ -1,4 +1,5 @@
 """Anchors and shared checks for the threaded pipeline (Pipe::new worker protocol), used by C05, C08 and C09."""
+import re
 from analysis.engine import AnchorMissing, Definite
 from analysis.facts import norm_path
 from analysis import cfg
@@ -68,6 +69,16 @@ def worker(ctx):
         raise Definite('second-pull', 'the worker pulls from the shared input at %d sites (lines %s): an item is requested while the result of the previous one is '
                        'still held back, so delivering f(x_k) depends on the input answering a request for a later element (a request/response source deadlocks) and the '
                        'look-ahead grows' % (len(tick), ', '.join(str(t.span['line']) for t in tick)), b, tick[1].span)
+    # a `next()` over a Vec that was filled from the locked input is not the ticket pull: the tickets were taken in bulk
+    tick = [t for t in tick if not re.search(r'vec::IntoIter|slice::Iter|vec_deque::', t.callee_res() or '')]
+    if len(tick) == 0:
+        bulk = [t for t in b.calls(r'Iterator::(take|collect|by_ref|nth|take_while|step_by)$|Vec::extend$|Extend>::extend$')
+                if any(has(sym(b, a), Call('Mutex::lock')) or has(_iv(b, sym(b, a)), Call('Mutex::lock')) for a in t.args)]
+        if bulk:
+            raise Definite('chunk-pull', 'the worker takes several items per lock from the shared input (`%s`, line %d): it then owns several consecutive tickets at once, '
+                           'and when it stops early (the consumer is gone, a send failed) the tickets it has not sent yet belong to nobody -- the turn counter stops in front '
+                           'of them and every other worker spins forever; the look-ahead is also multiplied by the chunk size' % (
+                               (bulk[0].callee_res() or '').rsplit('::', 1)[-1], bulk[0].span['line']), b, bulk[0].span)
     if len(tick) != 1:
         raise AnchorMissing('worker: exactly one `.lock()..next()` ticket pull (found %d)' % len(tick))
     w.ticket = tick[0]
